@@ -8,8 +8,10 @@ import (
 	"github.com/nyaruka/goflow/flows"
 	"github.com/nyaruka/goflow/flows/actions"
 	"github.com/nyaruka/goflow/flows/definition"
+	"github.com/nyaruka/goflow/flows/events"
 	"github.com/nyaruka/goflow/flows/inspect"
 	"github.com/nyaruka/goflow/flows/routers"
+	"github.com/nyaruka/goflow/utils"
 	"github.com/nyaruka/goflow/zzverif"
 	"github.com/shopspring/decimal"
 )
@@ -182,4 +184,91 @@ func VerifC20_WaitingExits() {
 		}
 	}
 	zzverif.Assert(found, "a resumed run left its wait by an exit that is not listed as a waiting exit")
+}
+
+// verifExtractResults mirrors flow.extractResults without the reflection walk:
+// per node, the results its actions declare (ResultContainer) and its router
+// enumerates.
+func verifExtractResults(f flows.Flow) []flows.ExtractedResult {
+	var out []flows.ExtractedResult
+	for _, n := range f.Nodes() {
+		n := n
+		for _, a := range n.Actions() {
+			a := a
+			if rc, ok := a.(inspect.ResultContainer); ok {
+				rc.Results(func(i *flows.ResultInfo) { out = append(out, flows.ExtractedResult{Node: n, Action: a, Info: i}) })
+			}
+		}
+		if r := n.Router(); r != nil {
+			r.EnumerateResults(func(i *flows.ResultInfo) { out = append(out, flows.ExtractedResult{Node: n, Router: r, Info: i}) })
+		}
+	}
+	return out
+}
+
+// VerifC20_MergedSpecs: the result specs the inspection reports
+// (flows.NewResultSpecs over what the nodes declare) cover every result a run
+// saves, also when several sources save the same key — two actions of one
+// node, an action and the router of the same node, sources on different
+// nodes, with the same or different names and categories: the saved
+// category is among the merged spec's categories and the saving node among
+// its node UUIDs.
+// cover: same-node-action-and-router, same-node-two-actions, two-nodes, saved
+func VerifC20_MergedSpecs() {
+	names := []string{"Color", "color", "Size"}
+	nameA := names[zzverif.Choice("first-name", 3)]
+	nameB := names[zzverif.Choice("second-name", 3)]
+	catsB := []string{"Red", "Big"}
+	shape := zzverif.Choice("shape", 3)
+	routerOf := func(name string) flows.Router {
+		cats := []flows.Category{routers.NewCategory("c0", "Red", "e0"), routers.NewCategory("c1", "Other", "e1")}
+		return routers.NewSwitch(nil, name, cats, "x", []*routers.Case{routers.NewCase("k0", "verif_test", nil, "c0")}, "c1")
+	}
+	exits2 := []flows.Exit{definition.NewExit("e0", ""), definition.NewExit("e1", "")}
+	var nodes []flows.Node
+	switch shape {
+	case 0:
+		zzverif.Cover("same-node-action-and-router")
+		nodes = []flows.Node{definition.NewNode("f0n0", []flows.Action{actions.NewSetRunResult("a1", nameA, "v", "Pending")}, routerOf(nameB), exits2)}
+	case 1:
+		zzverif.Cover("same-node-two-actions")
+		nodes = []flows.Node{definition.NewNode("f0n0", []flows.Action{actions.NewSetRunResult("a1", nameA, "v", "Pending"),
+			actions.NewSetRunResult("a2", nameB, "w", catsB[zzverif.Choice("second-category", 2)])}, nil, []flows.Exit{definition.NewExit("e0", "")})}
+	default:
+		zzverif.Cover("two-nodes")
+		nodes = []flows.Node{
+			definition.NewNode("f0n0", []flows.Action{actions.NewSetRunResult("a1", nameA, "v", "Pending")}, nil, []flows.Exit{definition.NewExit("e9", "f0n1")}),
+			definition.NewNode("f0n1", nil, routerOf(nameB), exits2)}
+	}
+	f, err := definition.NewFlow(verifFlowUUID(0), "F0", "eng", flows.FlowTypeMessaging, 1, 10, definition.NewLocalization(), nodes, nil, nil)
+	zzverif.Assert(err == nil, "flow did not validate")
+	sa := verifNewAssets()
+	sa.add(f)
+	verifLazyOutcomes = true
+	sess, sp, err := verifEngine(10, 10).NewSession(sa, verifManualTrigger(sa, verifContact(sa)))
+	zzverif.Assert(err == nil, "NewSession failed")
+	specs := flows.NewResultSpecs(verifExtractResults(f))
+	// every result value a run held at any time is announced by a run_result_changed event
+	for _, e := range sp.Events() {
+		rc, ok := e.(*events.RunResultChangedEvent)
+		if !ok {
+			continue
+		}
+		zzverif.Cover("saved")
+		var spec *flows.ResultSpec
+		for _, s := range specs {
+			if s.Key == utils.Snakify(rc.Name) {
+				spec = s
+			}
+		}
+		zzverif.Assert(spec != nil, "a run saved a result that the inspection's result specs do not list")
+		found := false
+		for _, c := range spec.Categories {
+			if c == rc.Category {
+				found = true
+			}
+		}
+		zzverif.Assert(found, "a run saved a result with a category that the merged result spec does not list")
+	}
+	_ = sess
 }
